@@ -8,12 +8,24 @@ def serve(arg):
     import periodictable
     from periodictable import core, mass, density, nsf
     tabs = {"public": periodictable.elements}
+    variant = arg.get("variant", 0)
+    pub = periodictable.elements
+    # how the neutron data of this interpreter was first touched
+    if variant == 1:
+        nsf.init(pub)                          # explicit init
+    elif variant == 2:
+        _ = pub.Fe[56].nuclear_spin            # through the other property of the same loader
+    elif variant == 3:
+        _ = pub.Fe.ion[2].neutron              # through an ion
     if arg.get("private"):
         t = core.PeriodicTable("T1")
         mass.init(t)
         density.init(t)
         nsf.init(t)
         tabs["T1"] = t
+    if variant:
+        # ... and then an ion, an isotope ion and a probe before the table is read
+        _ = (pub.Fe.ion[2].neutron, pub.Ni[58].ion[2].neutron, hasattr(pub.Co.ion[2], "neutron"))
     out = []
     for T, t in sorted(tabs.items()):
         for z in arg["zs"]:
@@ -56,14 +68,28 @@ def nodes(arg):
             el = getattr(t, sym)
             at = el if iso is None else el[iso]
             lumix = (sym == "Lu" and iso is None)
+            # every second table is asked with one vector holding all its node wavelengths in a shuffled order
+            import random
+            import numpy as np
+            order = list(range(len(rows)))
+            random.Random(len(rows) * 31 + len(sym)).shuffle(order)
+            vec = None
+            if (len(rows) + len(sym) + (iso or 0)) % 2 == 0 and len(rows) >= 3:
+                try:
+                    lams = np.array([float(nsf.neutron_wavelength(rows[j][0] * 1000.0)) for j in order])
+                    vb, vs = at.neutron.scattering_by_wavelength(lams)
+                    vec = dict((j, (vb[k], vs[k] if np.ndim(vs) else vs)) for k, j in enumerate(order))
+                except Exception:
+                    vec = None
             for i, row in enumerate(rows):
                 E, re, im = row[0], row[1], row[2]
                 ev = {"ev": "enode", "id": "enode:%s:%s:%s:%d" % (T, sym, iso, i), "T": T, "kind": "lumix" if lumix else "table",
                       "E": dec.to_dec(repr(E)), "re": dec.to_dec(repr(re)), "im": dec.to_dec(repr(im))}
                 try:
                     lam = float(nsf.neutron_wavelength(E * 1000.0))
-                    b, sig = at.neutron.scattering_by_wavelength(lam)
+                    b, sig = at.neutron.scattering_by_wavelength(lam) if vec is None else vec[i]
                     ev["lam"] = dec.enc(lam)
+                    ev["vector"] = vec is not None
                     ev["got_re"], ev["got_im"] = dec.enc(complex(b).real), dec.enc(complex(b).imag)
                     ev["sigma"] = dec.enc(float(sig))
                     if lumix:
